@@ -178,6 +178,9 @@ type FuncVC struct {
 	params     map[string]Val
 	streamAppend func(r, d, x Term, xv ssa.Value, pos token.Pos)
 	inGlobalInv bool
+	mergeWidth int
+	pfxPairs []pfxPair
+	sfxFacts []sfxFact
 	sliceOrigins map[ssa.Value]sliceOrigin
 	lenient bool
 	inert bool
@@ -505,6 +508,9 @@ func (fv *FuncVC) wf(t Term, gt types.Type) string {
 		mx := "true"
 		if fv.Mode == ModeInt {
 			mx = smtAnd(app("<", fv.capOf(t), pow2(62)), app("<", fv.offOf(t), pow2(62)))
+		} else {
+			lim := intLit(1<<62, SInt, ModeBV)
+			mx = smtAnd(app("bvslt", fv.capOf(t), lim), app("bvslt", fv.offOf(t), lim))
 		}
 		return smtAnd(fv.ile(z, fv.lenOf(t)), fv.ile(fv.lenOf(t), fv.capOf(t)), fv.ile(z, fv.offOf(t)),
 			app(">=", fv.baseOf(t), "0"), mx, smtImp(app("=", fv.baseOf(t), "0"), app("=", fv.capOf(t), z)))
@@ -759,7 +765,7 @@ func (fv *FuncVC) lvRoot(st *State, lv *LValue) Term {
 		return t
 	case LHeap, LCell:
 		h := fv.heapTerm(st, lv.HKey, lv.HSort)
-		return Term{S: app("select", h.S, lv.Ref), Sort: lv.HSort}
+		return Term{S: selStore(h.S, lv.Ref), Sort: lv.HSort}
 	case LGlobal:
 		return fv.globalTerm(st, lv.Global)
 	case LElem:
@@ -817,8 +823,15 @@ func (fv *FuncVC) store(st *State, lv *LValue, v Term) {
 		// name the updated aggregate: nested updates otherwise grow exponentially
 		n := fv.fresh("upd", root.Sort)
 		n.Go = root.Go
+		if n.Go == nil && lv.Kind == LAlloc {
+			n.Go = lv.Alloc.Type().(*types.Pointer).Elem()
+		}
 		fv.assert(app("=", n.S, nv.S))
+		fv.inheritSeqFacts(n, root, n.Go, 0)
 		nv = n
+	}
+	if nv.Go == nil && lv.Kind == LAlloc && len(lv.Path) == 0 {
+		nv.Go = lv.Alloc.Type().(*types.Pointer).Elem()
 	}
 	switch lv.Kind {
 	case LAlloc:
@@ -886,7 +899,7 @@ func (fv *FuncVC) loadStructRef(st *State, ref string, t types.Type) Term {
 	var args []string
 	for i, f := range si.fields {
 		h := fv.heapTerm(st, heapKey(t, f.Name()), si.fsorts[i])
-		args = append(args, app("select", h.S, ref))
+		args = append(args, selStore(h.S, ref))
 	}
 	return Term{S: app("mk_S_"+si.sort.Name, args...), Sort: si.sort}
 }
@@ -978,4 +991,133 @@ func (fv *FuncVC) splitPoint(b *ssa.BasicBlock) (*ssa.BasicBlock, []int) {
 		b = preds[0]
 	}
 	return nil, nil
+}
+
+// pfx(a, b): b is a prefix of a, as an opaque predicate; sfx(a, n, b):
+// a[n : n+len(b)] == b. Both are derived at appends and from callee
+// postconditions; the generator supplies the needed *ground instances* of
+// their axioms (length, element-wise meaning, reflexivity, transitivity,
+// transfer of content along prefixes) for the term pairs that occur, instead
+// of leaving quantified axioms over sequence values to the solver. This keeps
+// "nothing before len(dst) changed" obligations propositional and fast.
+type pfxPair struct{ a, b Term }
+type sfxFact struct {
+	a Term
+	n string
+	b Term
+}
+
+func (fv *FuncVC) pfxName(s Sort) string {
+	dt := fv.sliceDT(s)
+	name := "pfx_" + dt
+	if !fv.declared[name] {
+		fv.declared[name] = true
+		fv.ensureSort(s)
+		fv.decls = append(fv.decls, fmt.Sprintf("(declare-fun %s (%s %s) Bool)", name, dt, dt))
+	}
+	return name
+}
+
+func (fv *FuncVC) sfxName(s Sort) string {
+	dt := fv.sliceDT(s)
+	name := "sfx_" + dt
+	if !fv.declared[name] {
+		fv.declared[name] = true
+		fv.ensureSort(s)
+		fv.decls = append(fv.decls, fmt.Sprintf("(declare-fun %s (%s %s %s) Bool)", name, dt, idxSort(fv.Mode), dt))
+	}
+	return name
+}
+
+// lemma instances are asserted in the block where the terms are first needed
+// (visible to every obligation below it); the same instance is emitted again
+// when another branch needs it.
+func (fv *FuncVC) globally(f func()) { f() }
+
+func (fv *FuncVC) blockKey() string {
+	if fv.curBlock != nil && fv.inBlocks {
+		return fmt.Sprintf("@b%d", fv.curBlock.Index)
+	}
+	return "@entry"
+}
+
+func (fv *FuncVC) pfx(a, b Term) string {
+	p := fv.pfxName(a.Sort)
+	t := app(p, a.S, b.S)
+	key := "pfxpair:" + a.S + "|" + b.S + fv.blockKey()
+	if fv.declared[key] || len(fv.pfxPairs) > 2000 {
+		return t
+	}
+	fv.declared[key] = true
+	fv.globally(func() {
+		fv.assert(smtImp(t, fv.ile(fv.lenOf(b), fv.lenOf(a))))
+		fv.assert(smtImp(t, fv.forallCopy(a, fv.ilit(0), b, fv.ilit(0), fv.lenOf(b))))
+		fv.assert(smtImp(app("=", a.S, b.S), t))
+	})
+	old := append([]pfxPair{}, fv.pfxPairs...)
+	dup := false
+	for _, q := range old {
+		if q.a.S == a.S && q.b.S == b.S {
+			dup = true
+		}
+	}
+	if !dup {
+		fv.pfxPairs = append(fv.pfxPairs, pfxPair{a, b})
+	}
+	for _, q := range old {
+		if !sameSort(q.a.Sort, a.Sort) {
+			continue
+		}
+		if q.a.S == b.S { // a >= b >= q.b
+			t2 := fv.pfx(a, q.b)
+			fv.globally(func() { fv.assert(smtImp(smtAnd(t, app(p, q.a.S, q.b.S)), t2)) })
+		}
+		if q.b.S == a.S { // q.a >= a >= b
+			t2 := fv.pfx(q.a, b)
+			fv.globally(func() { fv.assert(smtImp(smtAnd(app(p, q.a.S, q.b.S), t), t2)) })
+		}
+	}
+	for _, f := range append([]sfxFact{}, fv.sfxFacts...) {
+		if f.a.S == b.S && sameSort(f.a.Sort, a.Sort) { // content of b is content of a
+			t2 := fv.sfx(a, f.n, f.b)
+			fv.globally(func() { fv.assert(smtImp(smtAnd(t, app(fv.sfxName(a.Sort), f.a.S, f.n, f.b.S)), t2)) })
+		}
+	}
+	return t
+}
+
+func (fv *FuncVC) sfx(a Term, n string, b Term) string {
+	sn := fv.sfxName(a.Sort)
+	t := app(sn, a.S, n, b.S)
+	key := "sfxfact:" + a.S + "|" + n + "|" + b.S + fv.blockKey()
+	if fv.declared[key] || len(fv.sfxFacts) > 2000 {
+		return t
+	}
+	fv.declared[key] = true
+	fv.globally(func() {
+		fv.assert(smtImp(t, smtAnd(fv.ile(fv.ilit(0), n), fv.ile(fv.iadd(n, fv.lenOf(b)), fv.lenOf(a)))))
+		fv.assert(smtImp(t, fv.forallCopy(a, n, b, fv.ilit(0), fv.lenOf(b))))
+	})
+	dupf := false
+	for _, f := range fv.sfxFacts {
+		if f.a.S == a.S && f.n == n && f.b.S == b.S {
+			dupf = true
+		}
+	}
+	if !dupf {
+		fv.sfxFacts = append(fv.sfxFacts, sfxFact{a, n, b})
+	}
+	for _, q := range append([]pfxPair{}, fv.pfxPairs...) {
+		if q.b.S == a.S && sameSort(q.a.Sort, a.Sort) {
+			t2 := fv.sfx(q.a, n, b)
+			fv.globally(func() { fv.assert(smtImp(smtAnd(app(fv.pfxName(a.Sort), q.a.S, q.b.S), t), t2)) })
+		}
+	}
+	// the same content at an equal offset (offsets are often equal only modulo arithmetic)
+	for _, f := range fv.sfxFacts {
+		if f.a.S == a.S && f.b.S == b.S && f.n != n {
+			fv.globally(func() { fv.assert(smtImp(smtAnd(app(sn, f.a.S, f.n, f.b.S), app("=", f.n, n)), t)) })
+		}
+	}
+	return t
 }
